@@ -285,6 +285,29 @@ class Fate:
         return 'Fate(%s)' % ','.join(sorted(self.kinds))
 
 
+def _option_tests(body, local):
+    """switches that decide on Some / None of the Option held in `local` (moved around freely): [(switch bb, None-side targets, Some-side targets)]"""
+    out = []
+    for l in forward_locals(body, local):
+        for (bb, idx, what) in body.operand_uses(l):
+            if what[0] == 'stmt' and what[1]['rv']['k'] == 'disc' and not (what[1]['rv']['p'][1] and what[1]['rv']['p'][1] != ['*']):
+                for (b2, i2, w2) in body.operand_uses(what[1]['p'][0]):
+                    if w2[0] == 'switch':
+                        m = dict(zip(w2[1]['vals'], w2[1]['tgts']))
+                        other = w2[1]['tgts'][-1]
+                        out.append((b2, [m.get(0, other)], [m.get(1, other)]))
+            elif what[0] == 'callarg' and what[1].matches(TRY_BRANCH):
+                # ControlFlow: Continue = 0 (Some), Break = 1 (None)
+                for (b2, i2, w2) in body.operand_uses(what[1].dest[0]):
+                    if w2[0] == 'stmt' and w2[1]['rv']['k'] == 'disc':
+                        for (b3, i3, w3) in body.operand_uses(w2[1]['p'][0]):
+                            if w3[0] == 'switch':
+                                m = dict(zip(w3[1]['vals'], w3[1]['tgts']))
+                                other = w3[1]['tgts'][-1]
+                                out.append((b3, [m.get(1, other)], [m.get(0, other)]))
+    return out
+
+
 def classify_result(body, call, _depth=0, _local=None):
     """What happens to the Result produced by `call` (or held in `_local`)."""
     fate = Fate()
@@ -351,8 +374,27 @@ def classify_result(body, call, _depth=0, _local=None):
                     fate.kinds.add('PROPAGATED')
                 elif c.matches(DISCARD_METHODS):
                     byref = (c.t.get('argtys') or [''])[0].startswith('&')
-                    fate.kinds.add('INSPECTED' if byref else 'DISCARDED')
-                    fate.notes.append('%s at %s' % (c.path.split('::')[-1], c.where()))
+                    tested = _option_tests(body, c.dest[0]) if (not byref and c.matches(r'::(ok|err)$')) else []
+                    if tested:
+                        # `r.ok()?`, `if let Some(x) = r.ok()`, `match r.ok() {..}`: the same decision as `if let Ok(x) = r` - the error value is
+                        # not looked at, but the failure takes a branch of its own
+                        fate.kinds.add('MATCHED')
+                        is_ok = c.matches(r'::ok$')
+                        for sb, none_arms, some_arms in tested:
+                            _switches.append((sb, none_arms if is_ok else some_arms, some_arms if is_ok else none_arms))
+                    elif c.matches(r'::(is_ok|is_err)$') and any(w3[0] == 'switch' for l3 in forward_locals(body, c.dest[0]) for (_b3, _i3, w3) in body.operand_uses(l3)):
+                        # `if r.is_ok() {..} else {..}`: a match on the result without looking at the payloads
+                        fate.kinds.add('MATCHED')
+                        neg = c.matches(r'::is_err$')
+                        for l3 in forward_locals(body, c.dest[0]):
+                            for (b3, i3, w3) in body.operand_uses(l3):
+                                if w3[0] == 'switch':
+                                    tt, ft = switch_targets_bool(w3[1])
+                                    if tt is not None:
+                                        _switches.append((b3, [tt] if neg else [ft], [ft] if neg else [tt]))
+                    else:
+                        fate.kinds.add('INSPECTED' if byref else 'DISCARDED')
+                        fate.notes.append('%s at %s' % (c.path.split('::')[-1], c.where()))
                 elif c.matches(PANIC_METHODS):
                     fate.kinds.add('PANICS')
                     fate.notes.append('%s at %s' % (c.path.split('::')[-1], c.where()))
@@ -995,14 +1037,19 @@ def must_pass_state(body, start, tests, state, via):
     return (not rets), (sorted(rets)[0] if rets else None)
 
 
-def return_variants_state(body, start, tests, state):
+def return_variants_state(body, start, tests, state, subject=None):
+    """subject: the local that holds the tested Result - returning that very value (`let r = f(); if r.is_ok() {..} else {..}; r`)
+    returns what the state says it is"""
     out = set()
+    same = forward_locals(body, subject) if subject is not None else set()
     for b in reachable_state(body, start, tests, state):
         for s_ in body.blocks[b]['stmts']:
             if s_['p'][0] == 0 and not s_['p'][1]:
                 rv = s_['rv']
                 if rv['k'] == 'agg' and rv.get('ak') == 'adt':
                     out.add(rv['variant'])
+                elif rv['k'] == 'use' and op_local(rv['op']) in same and not (op_place(rv['op']) or [0, []])[1]:
+                    out.add('Err' if state == 'err' else 'Ok')
         c = body.call_at(b)
         if c is not None and c.dest[0] == 0 and not c.dest[1] and c.matches(FROM_RESIDUAL):
             out.add('Err')
